@@ -1,5 +1,8 @@
 import runner as R
 from props import *
+import C04_more
+
+LEAN_MODULES = ['C09', 'C09m']
 
 MANIFEST = dict(
     text="Proved in Lean: a machine holding a CtxSafe certificate (invariant: every stored context is derived from the subscription context; every reaction emits only derived contexts) delivers, "
@@ -7,7 +10,7 @@ MANIFEST = dict(
          "context-returning callbacks; per-item provenance is part of the C04 specifications (contexts are in the specs) and of the *_ctx_exact theorems. That the machines forward what the Go code forwards is the "
          "regenerated CtxFlow fact (provenance of every context expression handed downstream/upstream), decided by the kernel on every run. Tie: every catalogue operator and random chains with a marker at "
          "subscription, per item, and added by WithContext callbacks: the marker list of every delivered notification equals the model's; oracle: no delivered context is nil / lacks the subscription marker "
-         "except the listed known findings (Max on empty: nil; DefaultIfEmpty: Background; ToChannel: TODO).",
+         "except the listed known findings (Max on empty: nil; DefaultIfEmpty: Background); ToChannel's context.TODO() was repaired.",
     technique="Lean 4 proof (per-machine context invariant + generic run theorem) + kernel-decided CtxFlow table regenerated from source + differential correspondence of context markers",
     ref='5/C09')
 
@@ -42,10 +45,7 @@ def check(ctx):
     R.compare(ctx, rows, proj_ctx, 'C09 context markers of every delivered notification (single operators)', oracle=oracle_ctx, nontrivial=nontrivial_op)
     rows = R.run_kind(ctx, 'chains')
     R.compare(ctx, rows, proj_ctx, 'C09 context markers through chains', oracle=oracle_ctx, nontrivial=lambda c, gd: gd.get('trace', '-') != '-')
-    names = {r['Name']: r for r in catalogue()}
-    r = names.get('ToChannel')
-    if r and any(c['Prov'] == 'todo' for c in (r['CtxRows'] or [])):
-        ctx.known.append('op=ToChannel kind=next prov=todo: the channel is handed to the destination with context.TODO() instead of the subscription context')
+    C04_more.parts_C09(ctx)
     return dict(rule='every catalogue operator x variants (the WithContext variants add a marker in the callback) x raw scripts with a marker at subscription and one per item, '
                      'and random chains; compared: marker list of every delivered notification; oracle on the implementation: never nil, subscription marker present; '
                      'non-trivial = something delivered or dropped',
